@@ -58,7 +58,7 @@ def run(ctx):
     ctx.rule = ('inputs = valid BER/CER/DER encodings of T, encodings of neighbouring types (member dropped, retagged, element duplicated), and '
                 'mutants of both; only accepted inputs count (acceptance rate in the distribution); checked on acceptance: independent '
                 "well-formedness, the library's encoder accepts the value, decode(encode(value)) is abstractly equal; plus constrained types "
-                '(value range, size of OCTET STRING, size of SEQUENCE OF/SET OF)')
+                '(value range, size of OCTET STRING, size of SEQUENCE OF/SET OF); time types with 13 damaged or non-canonical texts under each codec; REAL with 200..255-octet exponents')
     search_only = getattr(ctx, 'search_only', False)
     cases = codec.gen_cases(ctx, ctx.n(100, 2000), depth=3)
     exprs, meta = [], []
@@ -119,6 +119,36 @@ def run(ctx):
                     if not good:
                         ctx.prop_fail('decoder returned a value violating the subtype constraint of %s' % name,
                                       {'decoder': cdc, 'type': name, 'bytes': data.hex()}, finding=fid if fid == 'F13' else None)
+    # time types with damaged / non-canonical text under each codec (finding F56 is the CER/DER half), and a
+    # REAL whose exponent the encoder cannot write (F58); both were found by the proof of C10
+    from pyasn1.type import useful
+    TIMES = [b'abc', b'Z', b'', b'20170801120112Z', b'201708011201Z', b'20170801120112.5Z', b'20170801120112.50Z',
+             b'20170801120112+0100', b'2017080112Z', b'170801120112Z', b'1708011201Z', b'170801120112+0000', b'17080112011']
+    for tname, spec, tagno in (('GeneralizedTime', useful.GeneralizedTime(), 24), ('UTCTime', useful.UTCTime(), 23)):
+        for text in TIMES:
+            data = bytes([tagno, len(text)]) + text
+            for cdc in ('BER', 'CER', 'DER'):
+                d = I.run_decode(cdc, data, asn1Spec=spec)
+                ctx.case(('time', tname, text, cdc), True)
+                if d[0] != 'ok': continue
+                r = I.run_encode(cdc, d[1])
+                if r[0] != 'ok':
+                    ctx.prop_fail("the library's %s encoder refuses a %s the %s decoder returned (%r): %s" % (cdc, tname, cdc, text, r[1]),
+                                  {'decoder': cdc, 'type': tname, 'bytes': data.hex()}, finding='F56' if cdc in ('CER', 'DER') else None)
+                elif I.run_decode(cdc, r[1], asn1Spec=spec)[0] != 'ok':
+                    ctx.prop_fail('re-encoded %s does not decode' % tname, {'decoder': cdc, 'type': tname, 'bytes': data.hex()})
+    for first, nexp in ((0xa3, 255), (0xa3, 254), (0x93, 255), (0x83, 255), (0x83, 200)):
+        ct = bytes([first, nexp, 0x7f]) + b'\xff' * (nexp - 1) + b'\x01'
+        data = bytes([9, 0x82, len(ct) >> 8, len(ct) & 255]) + ct
+        for cdc in ('BER', 'DER'):
+            d = I.run_decode(cdc, data, asn1Spec=univ.Real())
+            ctx.case(('real-exponent', first, nexp, cdc), True)
+            if d[0] != 'ok': continue
+            r = I.run_encode(cdc, d[1])
+            if r[0] != 'ok':
+                ctx.prop_fail("the library's encoder refuses a REAL the decoder returned: %s" % r[1],
+                              {'decoder': cdc, 'type': 'REAL', 'bytes': data.hex()},
+                              finding='F58' if (first & 0x30) in (0x10, 0x20) and nexp >= 254 else None)
     if meta: ctx.sample(meta[0]); ctx.sample(meta[-1])
     if not search_only:
         codes = core.coq_codes('c10', 'Model.Dec Model.Obs', exprs)
